@@ -132,6 +132,10 @@ func (h *Handler) ipAvailable(lease *Lease, ip netip.Addr) bool {
 		ip == h.session.NICInfo.HostAddr4.IP || ip == h.session.NICInfo.RouterAddr4.IP {
 		return false
 	}
+	// the netfilter gateway (Config.NetfilterIP) is an address of this host too, and may differ from HostAddr4
+	if ip == lease.subnet.DefaultGW || (h.net2 != nil && ip == h.net2.DefaultGW) {
+		return false
+	}
 	for _, l := range h.table {
 		if l == lease || bytes.Equal(l.ClientID, lease.ClientID) {
 			continue
